@@ -397,6 +397,20 @@ Section Wrap.
       end.
   Proof. unfold wrap_file_with. cbn. destruct (wrap_bytes_with hdrdec srt o x); reflexivity. Qed.
 
+  (* WrapV1File onto its own source path: os.Create has emptied the source before it is read, so
+     the call fails and leaves an empty file -- for every source and all options *)
+  Theorem wrap_file_same o x :
+    wrap_file_with hdrdec srt o (mkfs (Some x) DSame) = (Err EOther, mkfs (Some []) DSame).
+  Proof.
+    unfold wrap_file_with. cbn [f_src set_dst f_dst]. unfold wrap_bytes_with.
+    destruct (idx_new (x_codec o)); reflexivity.
+  Qed.
+
+  (* what was at the destination path before does not matter (absent, shorter, longer) *)
+  Corollary wrap_file_dest_irrelevant o x d d' :
+    wrap_file_with hdrdec srt o (mkfs (Some x) (DOther d)) = wrap_file_with hdrdec srt o (mkfs (Some x) (DOther d')).
+  Proof. rewrite !wrap_file_other. reflexivity. Qed.
+
   Corollary wrap_bytes_fuel_enough o x : wrap_bytes_with hdrdec srt o x <> Err EFuel.
   Proof.
     unfold wrap_bytes_with. destruct (idx_new (x_codec o)); [|discriminate].
